@@ -5,6 +5,7 @@ mod interp;
 mod gen;
 mod guard;
 mod qdrive;
+mod poly;
 mod quire;
 mod sink;
 mod val;
@@ -26,6 +27,13 @@ fn main() {
             let cap = std::env::var("VERIF_SHARD_CAP").ok().and_then(|s| s.parse().ok()).unwrap_or(40_000);
             let mut ctx = drive::Ctx::new(dir, profile, seed, thorough, cap);
             guard::watchdog(format!("{dir}/TIMEOUT.ndjson"), 10);
+            // heavier events: smaller shards so that all TLC processes are busy
+            match suite {
+                "C18" => ctx.sink.cap = 1200,
+                "C04" | "C12" => ctx.sink.cap = 12_000,
+                "C11" | "C15" => ctx.sink.cap = 1500,
+                _ => {}
+            }
             match suite {
                 "C01" => drive::suite_c01(&mut ctx),
                 "SELF" => drive::suite_self(&mut ctx),
@@ -39,6 +47,7 @@ fn main() {
                 "C10" => drive::suite_c10(&mut ctx),
                 "C17" => drive::suite_c17(&mut ctx),
                 "C04" => qdrive::suite_c04(&mut ctx),
+                "C18" => poly::suite_c18(&mut ctx),
                 "C12" => qdrive::suite_c12(&mut ctx),
                 _ => {
                     eprintln!("unknown suite {suite}");
